@@ -768,7 +768,9 @@ func (w *World) opSetColl(h *StoreH, op Op) {
 		h.M.Colls[op.C] = &MColl{Cmp: cmp}
 	}
 	if w.judges(kind) {
-		w.checkNames(h, kind)
+		if w.observeNow() {
+			w.checkNames(h, kind)
+		}
 		if c.Name() != op.C {
 			w.fail("collection-name", kind, "SetCollection(%q) returned a collection named %q", op.C, c.Name())
 		}
@@ -825,9 +827,19 @@ func (w *World) opRmColl(h *StoreH, op Op) {
 		w.probe("rmcoll-present")
 	}
 	delete(h.M.Colls, op.C)
-	if w.judges(kind) {
+	if w.judges(kind) && w.observeNow() {
 		w.checkNames(h, kind)
 	}
+}
+
+// observeNow decides, as a pure function of the position in the trace,
+// whether an optional observation is made after this operation.  Asking
+// after every single operation would hide state that only goes stale
+// between two observations (a cached answer, for instance).
+func (w *World) observeNow() bool {
+	x := uint64(w.OpIdx+1)*0x9e3779b97f4a7c15 + uint64(w.sub)*0xbf58476d1ce4e5b9
+	x ^= x >> 29
+	return x%3 == 0
 }
 
 func (w *World) checkNames(h *StoreH, kind string) {
